@@ -1,5 +1,6 @@
 import PikaVerif.Lemmas.Snd
-import PikaVerif.Lemmas.Shared
+import PikaVerif.Lemmas.Shared3
+import PikaVerif.Lemmas.WhenAll
 /-!
 # C03 — sender adaptors deliver exactly one, correct completion signal
 
@@ -24,11 +25,13 @@ open PikaVerif PikaVerif.Snd
     receiver on the way, no operation state was touched after release, the process did not
     terminate, and all operation states that existed before are unchanged. -/
 theorem C03_receiver_contract (cfg : Cfg) (hc : cfg.ok = true) (t : Term) (env : List Int) (k : Rc)
-    (s : M) (ha : s.aborted = false) (hr : s.released = false) :
+    (s : M) (ha : s.aborted = false) (hr : s.released = false) (hF : Fresh s) :
     ∃ s', start cfg t env k s = k (denote t env) s' ∧ s'.log = s.log ∧ s'.uaf = s.uaf ∧
-      s'.aborted = false ∧ s'.released = false ∧ ∀ a, a < s.next → s'.cells a = s.cells a := by
-  obtain ⟨s', e, x⟩ := spec cfg hc t env k s ha hr
-  exact ⟨s', e, x.log, x.uaf, x.aborted, x.released, fun a h => x.cells a h (by omega)⟩
+      s'.aborted = false ∧ s'.released = false ∧
+      ∀ a, a < s.next → s'.cells a = s.cells a ∧ s'.freed a = s.freed a := by
+  obtain ⟨s', e, x⟩ := spec cfg hc t env k s ha hr hF
+  exact ⟨s', e, x.log, x.uaf, x.aborted, x.released,
+    fun a h => ⟨x.cells a h (by omega), x.freed a h⟩⟩
 
 /-- **Exactly one, correct signal.**  Connecting any pipeline to the instrumented terminal
     receiver (which destroys the operation state inside its completion function) and starting
@@ -36,7 +39,7 @@ theorem C03_receiver_contract (cfg : Cfg) (hc : cfg.ok = true) (t : Term) (env :
     no adaptor touches an operation state after the receiver released it. -/
 theorem C03_exec_denotes (cfg : Cfg) (hc : cfg.ok = true) (t : Term) :
     run cfg t = { log := [denote t []], aborted := false, uaf := false } := by
-  obtain ⟨s', e, x⟩ := spec cfg hc t [] termR M.init rfl rfl
+  obtain ⟨s', e, x⟩ := spec cfg hc t [] termR M.init rfl rfl (fun _ _ => rfl)
   simp only [run, e, termR, M.outcome, x.log, x.uaf, x.aborted]
   rfl
 
@@ -60,6 +63,59 @@ theorem C03_fixed_tree (t : Term) :
     run Cfg.fixed t = { log := [denote t []], aborted := false, uaf := false } :=
   C03_exec_denotes Cfg.fixed rfl t
 
+/-- **The pinned (pre-fix) tree, partial.**  `Cfg.pinned` is the tree as pinned: `split` and
+    `split_tuple` do not store a stopped completion.  For every pipeline that cannot complete
+    with stopped anywhere (`stoppedFree`: no `stop` leaf, no scheduler completing with stopped;
+    errors, throwing callables and every adaptor are allowed) the pinned tree satisfies the full
+    statement: exactly one call of the terminal receiver, with the denoted signal, no abort, no
+    touch after release.  (The full theorem is false for the pinned tree:
+    `C03_split_stopped_counterexample`.) -/
+theorem C03_exec_denotes_partial (t : Term) (h : stoppedFree t = true) :
+    run Cfg.pinned t = { log := [denote t []], aborted := false, uaf := false } := by
+  obtain ⟨s', e, x⟩ := specG Cfg.pinned rfl t (Or.inr h) [] termR M.init rfl rfl (fun _ _ => rfl)
+  simp only [run, e, termR, M.outcome, x.log, x.uaf, x.aborted]
+  rfl
+
+/-- The receiver contract in the same generality: any code variant, any term it handles. -/
+theorem C03_receiver_contract_partial (cfg : Cfg) (hw : cfg.wvSendsDone = true) (t : Term)
+    (hg : cfg.ok = true ∨ stoppedFree t = true) (env : List Int) (k : Rc)
+    (s : M) (ha : s.aborted = false) (hr : s.released = false) (hF : Fresh s) :
+    ∃ s', start cfg t env k s = k (denote t env) s' ∧ s'.log = s.log ∧ s'.uaf = s.uaf ∧
+      s'.aborted = false ∧ s'.released = false ∧
+      ∀ a, a < s.next → s'.cells a = s.cells a ∧ s'.freed a = s.freed a := by
+  obtain ⟨s', e, x⟩ := specG cfg hw t hg env k s ha hr hF
+  exact ⟨s', e, x.log, x.uaf, x.aborted, x.released,
+    fun a h => ⟨x.cells a h (by omega), x.freed a h⟩⟩
+
+/-- **drop_operation_state.**  When `drop_operation_state(p)` calls the connected receiver, every
+    operation state the predecessor pipeline `p` allocated has been destroyed (inside `p`'s own
+    completion call), no adaptor of `p` has touched an operation state after its destruction
+    (`uaf` unchanged), the operation states that existed before are intact, and the signal is the
+    one `p` denotes. -/
+theorem C03_drop_operation_state (cfg : Cfg) (hw : cfg.wvSendsDone = true) (p : Term)
+    (hg : cfg.ok = true ∨ stoppedFree p = true) (env : List Int) (k : Rc)
+    (s : M) (ha : s.aborted = false) (hr : s.released = false) (hF : Fresh s) :
+    ∃ s', start cfg (.dos p) env k s = k (denote p env) s' ∧ s'.uaf = s.uaf ∧ s'.aborted = false ∧
+      (∀ a, s.next < a → a < s'.next → s'.freed a = true) ∧ s'.freed s.next = false ∧
+      (∀ a, a < s.next → s'.freed a = s.freed a ∧ s'.cells a = s.cells a) := by
+  obtain ⟨s', e, x, hfr, hown⟩ := spec_dos cfg p (specG cfg hw p hg) env k s ha hr hF
+  exact ⟨s', by simp [start, ha, e], x.uaf, x.aborted, hfr, hown,
+    fun a h => ⟨x.freed a h, x.cells a h (by omega)⟩⟩
+
+/-- Non-vacuity: nested drop_operation_state over when_all / split / continues_on; and the freed
+    range of a run (operation states 1‥3 of `dos(wa(just, sp(just)))` are destroyed, 0 is not). -/
+example : run Cfg.fixed (.dos (.thn (.add 1) (.dos (.wa (.just [1]) [.sp (.co .p (.just [2]))])))) =
+    { log := [.value [2, 3]], aborted := false, uaf := false } := by decide
+example : let s := start Cfg.fixed (.dos (.wa (.just [1]) [.sp (.just [2])])) [] (fun _ s => s) M.init
+    (s.next, s.freed 0, s.freed 1, s.freed 2, s.uaf) = (3, false, true, true, false) := by decide
+
+/-- a stopped-free pipeline never signals stopped -/
+theorem C03_stopped_free (t : Term) (h : stoppedFree t = true) (env : List Int) :
+    denote t env ≠ .stopped := denote_ns t h env
+
+example : run Cfg.pinned (.sp (.dos (.bulk 2 (.thrOdd 5) (.co .p (.just [1, 2]))))) =
+    { log := [.error 5], aborted := false, uaf := false } := by decide
+
 /-! ### What the denotation says (the clauses of the property, as equations) -/
 
 /-- values pass `then` through the callable; an exception becomes an error with the same code -/
@@ -68,23 +124,40 @@ theorem C03_then_value (f : Fn) (p : Term) (env vs : List Int) (h : denote p env
   simp only [denote, h, applyThen]; cases f.apply vs <;> rfl
 
 /-- upstream error / stopped pass unchanged through then, let_value, drop_value, continues_on,
-    split, ensure_started, split_tuple -/
-theorem C03_error_passes (f : Fn) (sc : Sch) (i : Nat) (p b : Term) (env : List Int) (e : Int)
+    split, ensure_started, split_tuple, bulk, require_started, drop_operation_state -/
+theorem C03_error_passes (f : Fn) (sc : Sch) (i n : Nat) (p b : Term) (env : List Int) (e : Int)
     (h : denote p env = .error e) :
     denote (.thn f p) env = .error e ∧ denote (.lv f p b) env = .error e ∧
     denote (.dv p) env = .error e ∧ denote (.co sc p) env = .error e ∧
     denote (.sp p) env = .error e ∧ denote (.es p) env = .error e ∧
-    denote (.st i p) env = .error e := by
-  simp [denote, h, applyThen, applySch]
+    denote (.st i p) env = .error e ∧ denote (.bulk n f p) env = .error e ∧
+    denote (.rs p) env = .error e ∧ denote (.dos p) env = .error e := by
+  simp [denote, h, applyThen, applySch, applyBulk]
 
-theorem C03_stopped_passes (f : Fn) (sc : Sch) (i : Nat) (p b : Term) (env : List Int)
+theorem C03_stopped_passes (f : Fn) (sc : Sch) (i n : Nat) (p b : Term) (env : List Int)
     (h : denote p env = .stopped) :
     denote (.thn f p) env = .stopped ∧ denote (.lv f p b) env = .stopped ∧
     denote (.le f p b) env = .stopped ∧
     denote (.dv p) env = .stopped ∧ denote (.co sc p) env = .stopped ∧
     denote (.sp p) env = .stopped ∧ denote (.es p) env = .stopped ∧
-    denote (.st i p) env = .stopped := by
-  simp [denote, h, applyThen, applySch]
+    denote (.st i p) env = .stopped ∧ denote (.bulk n f p) env = .stopped ∧
+    denote (.rs p) env = .stopped ∧ denote (.dos p) env = .stopped := by
+  simp [denote, h, applyThen, applySch, applyBulk]
+
+/-- values pass require_started, drop_operation_state, split, ensure_started and a scheduler that
+    completes with a value (inline or the pool) unchanged; `bulk(n, f)` calls `f` for
+    `i = 0 … n-1` in order and delivers the values it left, or the first exception. -/
+theorem C03_value_passes (n : Nat) (f : Fn) (p : Term) (env vs : List Int)
+    (h : denote p env = .value vs) :
+    denote (.rs p) env = .value vs ∧ denote (.dos p) env = .value vs ∧
+    denote (.sp p) env = .value vs ∧ denote (.es p) env = .value vs ∧
+    denote (.co .v p) env = .value vs ∧ denote (.co .p p) env = .value vs ∧
+    denote (.bulk 0 f p) env = .value vs ∧
+    denote (.bulk (n + 1) f p) env = (match f.apply (vs ++ [0]) with
+      | .ok r => applyBulkFrom 1 n f r
+      | .error e => .error e) := by
+  simp only [denote, h, applySch, applyBulk, bulkRun, applyBulkFrom, true_and]
+  cases f.apply (vs ++ [0]) <;> simp
 
 /-- `when_all`: all values → the values in predecessor order. -/
 theorem C03_when_all_values (vss : List (List Int)) :
@@ -174,10 +247,113 @@ theorem C03_shared_no_lost_continuation_partial (s : Shared.St) (hr : SReach s) 
   obtain ⟨kind, ss, log, hl⟩ := hr
   exact ⟨(Shared.inv_of_accepted hl).finishedEmpty, (Shared.inv_of_accepted hl).runningNonempty⟩
 
-/- Full statement (not proved; the ghost-counter part of the invariant was cut for time):
-   theorem C03_split_each_consumer_once (s) (hr : SReach s) (hq : ∀ t, s.pc t = .idle ∨ s.pc t = .fin)
-     (hs : s.storesStopped = true) (hc : s.sig = some c ∨ s.pending = some c) :
-     ∀ k, s.phase k ≠ .unused → s.got k = 1 ∧ s.gotSig k = some (sigFor s.kind k c) -/
+/-- No thread is inside an operation (every invoked `start()` / completion call has returned). -/
+def SQuiet (s : Shared.St) : Prop := ∀ t, s.pc t = .idle ∨ s.pc t = .fin
+
+/-- **Each consumer exactly once** (the headline concurrent statement).  Over every accepted log
+    of the shared-state protocol of split / split_tuple / ensure_started — any number of threads
+    and consumers, every interleaving, predecessor completing on its own thread or inline in the
+    first consumer's `start()` — in the tree that stores the stopped completion: once a
+    completion `c` has been requested for the predecessor and all calls have returned, every
+    consumer whose `start()` was called has received exactly one signal, and it is the stored
+    completion (`sigFor`: the value / the element `k` of the tuple, the error, or stopped). -/
+theorem C03_split_each_consumer_once (s : Shared.St) (hr : SReach s) (hq : SQuiet s)
+    (hs : s.storesStopped = true) (c : Shared.Compl) (hc : s.sig = some c ∨ s.pending = some c) :
+    ∀ k, s.phase k ≠ .unused → s.got k = 1 ∧ s.gotSig k = some (Shared.sigFor s.kind k c) := by
+  obtain ⟨kind, ss, log, hl⟩ := hr
+  obtain ⟨hi, hsi, hp, hci, hri⟩ := Shared.full_of_accepted hl
+  intro k hk
+  have hidle : ∀ t, Shared.consOf (s.pc t) = none ∧ Shared.isProd (s.pc t) = false := by
+    intro t; rcases hq t with h | h <;> simp [h, Shared.consOf, Shared.isProd]
+  -- the consumer is not in the middle of `start()`
+  have hna : s.phase k ≠ .active := by
+    intro ha
+    have := hp.activeCons k ha
+    rw [(hidle _).1] at this; simp at this
+  -- hence `start_called` is set and the completion was signalled
+  have hst : s.started = true := by
+    cases h : s.started with
+    | true => rfl
+    | false => rcases hsi.notStartedPhase h k with h1 | h1 <;> contradiction
+  have hsig : s.sig = some c := by
+    rcases hc with h | h
+    · exact h
+    · exact hsi.pendSig c h hst
+  have hv : s.v = some c := by rw [hsi.sigV c hsig, hs, Shared.stored_true]
+  -- the predecessor's call has finished: the container is empty
+  have hne : s.pst ≠ .none := by
+    intro h; have := hsi.sigNone.mpr h; rw [hsig] at this; simp at this
+  have hfin : s.pst = .finished := by
+    cases hp' : s.pst with
+    | finished => rfl
+    | _ => exact absurd (hi.prodActive hne (by rw [hp']; simp)) (by rw [(hidle _).2]; simp)
+  have hnq : s.phase k ≠ .queued := by
+    intro hq'
+    have := (hci.contsQ k).mpr hq'
+    rw [hi.finishedEmpty hfin] at this; simp at this
+  have hg : s.phase k = .got := by
+    cases h : s.phase k <;> simp_all
+  refine ⟨by rw [hri.gotCount k, hg]; simp, hri.gotSigV k c hg hv⟩
+
+/-- **Never twice, never a wrong signal** — in every reachable state (no quiescence needed, both
+    code variants): a consumer has received at most one signal, and a received signal is the
+    stored completion. -/
+theorem C03_split_at_most_once (s : Shared.St) (hr : SReach s) (k : Nat) :
+    s.got k ≤ 1 ∧ (s.got k = 1 → ∃ c, s.v = some c ∧ s.sig = some c ∧
+      s.gotSig k = some (Shared.sigFor s.kind k c)) := by
+  obtain ⟨kind, ss, log, hl⟩ := hr
+  obtain ⟨hi, hsi, hp, hci, hri⟩ := Shared.full_of_accepted hl
+  have hgc := hri.gotCount k
+  refine ⟨by rw [hgc]; split <;> simp, ?_⟩
+  intro h1
+  have hg : s.phase k = .got := by
+    cases h : s.phase k <;> simp [h] at hgc <;> first | rfl | (rw [hgc] at h1; simp at h1)
+  have hd := hri.gotLate k hg
+  have hne : s.pst ≠ .none := by
+    intro h; have := hi.doneIff.mp hd; rw [h] at this; simp [Shared.PStage.rank] at this
+  cases hsig : s.sig with
+  | none => exact absurd (hsi.sigNone.mp hsig) hne
+  | some c =>
+    have hv := hsi.sigV c hsig
+    cases hvv : s.v with
+    | some c' =>
+      have : c' = c := by
+        rw [hvv] at hv; simp only [Shared.stored] at hv; split at hv <;> simp at hv; exact hv
+      subst this
+      exact ⟨c', rfl, rfl, hri.gotSigV k c' hg hvv⟩
+    | none =>
+      -- nothing stored (pinned tree, stopped): nobody can have received a signal
+      exact absurd hvv (hri.gotV k hg)
+
+/-- In the tree that stores the stopped completion the protocol never reaches `PIKA_UNREACHABLE`. -/
+theorem C03_split_no_abort (s : Shared.St) (hr : SReach s) (hs : s.storesStopped = true) :
+    s.aborted = false := by
+  obtain ⟨kind, ss, log, hl⟩ := hr
+  exact (Shared.full_of_accepted hl).sinv.noAbort hs
+
+/-- A stuck state: no step of the adaptor code is possible, only the invocation of a new operation
+    (`invComplete`, `invConsume`) or the retirement of a thread. -/
+def SStuck (s : Shared.St) : Prop := ∀ e, Shared.Ev.isCall e = false → Shared.step s e = none
+
+/-- **Progress / no lost wake-up.**  A reachable state that has not aborted and in which the code
+    cannot take a step is quiescent: no consumer's `start()` and no completion call hangs inside
+    the protocol (a thread waiting for the spinlock always waits for a holder that can move). -/
+theorem C03_split_progress (s : Shared.St) (hr : SReach s) (ha : s.aborted = false)
+    (hst : SStuck s) : SQuiet s := by
+  obtain ⟨kind, ss, log, hl⟩ := hr
+  intro t
+  cases Classical.em (s.pc t = .idle ∨ s.pc t = .fin) with
+  | inl h => exact h
+  | inr h =>
+    obtain ⟨e, he, hm⟩ := Shared.progress s (Shared.full2_of_accepted hl) ha t h
+    rw [hst e he] at hm; simp at hm
+
+/-- The headline statement at a stuck state. -/
+theorem C03_split_stuck_all_served (s : Shared.St) (hr : SReach s) (hst : SStuck s)
+    (hs : s.storesStopped = true) (c : Shared.Compl) (hc : s.sig = some c ∨ s.pending = some c) :
+    ∀ k, s.phase k ≠ .unused → s.got k = 1 ∧ s.gotSig k = some (Shared.sigFor s.kind k c) :=
+  C03_split_each_consumer_once s hr
+    (C03_split_progress s hr (C03_split_no_abort s hr hs) hst) hs c hc
 
 /-- One consumer stores its continuation, then the predecessor completes with stopped: in the
     pinned tree the predecessor's thread aborts while running the continuation, the consumer
@@ -197,5 +373,108 @@ example : (runLog Shared.step (Shared.init .split true)
      .rcv 0 0 .stopped, .ret 0, .tdone 0, .tdone 1]).map
       (fun s => (s.aborted, s.got 0, s.gotSig 0, s.pst)) =
     some (false, 1, some .stopped, .finished) := by decide
+
+/-! ## Stage 2b — `when_all`'s counter and latch under concurrent predecessor completions
+
+`PikaVerif.WhenAll.step` is an acceptor over the hook events of `when_all_receiver::set_*` and
+`operation_state::finish` (latch access, value store, counter decrement, zero observed, delivery)
+for `n` predecessors completing on any threads, or inline in the start loop.  History fields
+(`compl`, `stage`, `first`) record what each predecessor sent, how far its receiver call got, and
+the first non-value completion to reach the latch. -/
+
+def WReach (s : WhenAll.St) : Prop := ∃ n log, runLog WhenAll.step (WhenAll.init n) log = some s
+
+def WQuiet (s : WhenAll.St) : Prop := ∀ t, s.pc t = .idle ∨ s.pc t = .fin
+
+/-- **At most once, and only by the last finishing predecessor.**  In every reachable state the
+    connected receiver has been signalled at most once; if it has, the counter is zero, every
+    predecessor's receiver call has passed its decrement, and the signal is the one determined by
+    the history (`decisionG`). -/
+theorem C03_when_all_at_most_once (s : WhenAll.St) (hr : WReach s) :
+    s.delivered ≤ 1 ∧ (s.delivered = 1 → s.remaining = 0 ∧ (∀ i, i < s.n → s.stage i = 3) ∧
+      s.result = some (WhenAll.decisionG s)) := by
+  obtain ⟨n, log, hl⟩ := hr
+  have hi := WhenAll.winv_of_accepted hl
+  refine ⟨by rcases hi.w2.delOnce with h | ⟨h, _⟩ <;> omega, fun hd => ?_⟩
+  rcases hi.w2.delOnce with h | ⟨_, hz⟩
+  · omega
+  · exact ⟨hz, WhenAll.all_decremented s hi.cnt hz, hi.w4 hd⟩
+
+/-- **Exactly once.**  When every predecessor has completed and all calls have returned, the
+    connected receiver has been signalled exactly once, with the history's decision. -/
+theorem C03_when_all_exactly_once (s : WhenAll.St) (hr : WReach s) (hq : WQuiet s) (hn : 0 < s.n)
+    (hall : ∀ i, i < s.n → s.firedI i = true) :
+    s.delivered = 1 ∧ s.result = some (WhenAll.decisionG s) := by
+  obtain ⟨n, log, hl⟩ := hr
+  have hi := WhenAll.winv_of_accepted hl
+  have hidle : ∀ t, WhenAll.curOf (s.pc t) = none ∧ WhenAll.isLast (s.pc t) = false := by
+    intro t; rcases hq t with h | h <;> simp [h, WhenAll.curOf, WhenAll.isLast]
+  have hst : ∀ i, i < s.n → s.stage i = 3 := by
+    intro i hlt
+    have h0 := (hi.w1.firedStage i).mp (hall i hlt)
+    have h3 := hi.w1.stageLe i
+    have h12 : ¬ (s.stage i = 1 ∨ s.stage i = 2) := by
+      intro h; have := hi.w1.stageCur i h; rw [(hidle _).1] at this; simp at this
+    omega
+  have hsum : PikaVerif.sumTo s.n (fun i => WhenAll.w3 (s.stage i)) = s.n :=
+    WhenAll.sumTo_all_one (fun i hlt => by simp [WhenAll.w3, hst i hlt])
+  have hz : s.remaining = 0 := by have := hi.cnt; unfold WhenAll.Cnt at this; omega
+  have hd : s.delivered = 1 := by
+    rcases hi.w2.zeroDone hz hn with h | h
+    · exact h
+    · rw [(hidle _).2] at h; simp at h
+  exact ⟨hd, hi.w4 hd⟩
+
+/-- **The decision.**  Once every predecessor's receiver call has passed the counter: the
+    decision is a value iff all predecessors sent values (and then it carries their values in
+    predecessor order, `enc (vals s)`); otherwise it is stopped or the error of the predecessor
+    whose non-value completion reached the latch first — a completion that was really sent. -/
+theorem C03_when_all_decision (s : WhenAll.St) (hr : WReach s) (hz : s.remaining = 0) :
+    ((WhenAll.decisionG s).1 = 0 ↔ ∀ i, i < s.n → ∃ a, s.compl i = some (0, a)) ∧
+    (s.first = none → WhenAll.decisionG s = (0, WhenAll.enc (WhenAll.vals s) s.n)) ∧
+    (∀ i ch e, s.first = some (i, ch, e) → i < s.n ∧ s.compl i = some (ch, e) ∧ ch ≠ 0 ∧
+      WhenAll.decisionG s = if ch = 1 then (1, 0) else (2, e)) := by
+  obtain ⟨n, log, hl⟩ := hr
+  have hi := WhenAll.winv_of_accepted hl
+  have hst := WhenAll.all_decremented s hi.cnt hz
+  refine ⟨⟨?_, ?_⟩, ?_, ?_⟩
+  · intro hd i hlt
+    have hf : s.first = none := by
+      cases hf : s.first with
+      | none => rfl
+      | some p =>
+        obtain ⟨j, ch, e⟩ := p
+        simp only [WhenAll.decisionG, hf] at hd
+        split at hd <;> simp at hd
+    have hne := hi.w1.stageCompl i (by rw [hst i hlt]; simp)
+    cases hc : s.compl i with
+    | none => exact absurd hc hne
+    | some p =>
+      obtain ⟨ch, a⟩ := p
+      have := (hi.w3.valuesStored hf i ch a (by rw [hst i hlt]; simp) hc).1
+      exact ⟨a, by rw [this]⟩
+  · intro hv
+    cases hf : s.first with
+    | none => simp [WhenAll.decisionG, hf]
+    | some p =>
+      obtain ⟨j, ch, e⟩ := p
+      have := hi.w3.firstCompl j ch e hf
+      obtain ⟨a, ha⟩ := hv j this.2.2.2
+      rw [ha] at this
+      simp at this
+      exact absurd this.1.1.symm this.2.1
+  · intro hf; simp [WhenAll.decisionG, hf]
+  · intro i ch e hf
+    have := hi.w3.firstCompl i ch e hf
+    exact ⟨this.2.2.2, this.1, this.2.1, by simp [WhenAll.decisionG, hf]⟩
+
+/-- Non-vacuity: three predecessors, the stopped one reaches the latch before the failing one,
+    the value one finishes last and delivers stopped. -/
+example : (runLog WhenAll.step (WhenAll.init 3)
+    [.invStart 0, .ret 0, .invComplete 1 0 0 7, .fire 1 0 0 7, .invComplete 2 1 2 5, .fire 2 1 2 5,
+     .invComplete 3 2 1 0, .fire 3 2 1 0, .sig 3 1, .sig 2 2, .dec 2, .ret 2, .dec 3, .ret 3,
+     .sig 1 0, .dec 1, .zero 1 true false, .rcv 1 1 0, .ret 1]).map
+      (fun s => (s.delivered, s.result, s.first)) = some (1, some (1, 0), some (2, 1, 0)) := by
+  decide
 
 end PikaVerif.C03
